@@ -1,4 +1,5 @@
 """C05 - reliability-layer property judged on recorded executions (see conn_judge / specs/Trace_Conn.tla)."""
+from props import packing
 from props import conn_judge as J, conn_model as CM
 
 
@@ -8,6 +9,8 @@ def run(ctx):
                 "non-trivial = every recv/build event (each is checked against the full clause set)")
     CM.c05_models(ctx)
     CM.finding_replay(ctx, "C05")
+    packing.model(ctx)
+    packing.grid(ctx, "C05", sorted(set(range(512, 1501, 24)) | {512, 513, 576, 600, 1280, 1472, 1499, 1500} | set(range(1090, 1101))) if ctx.quick else list(range(512, 1501)))
     J.run_scenarios(ctx, "C05", scenarios(ctx))
 
 
